@@ -763,7 +763,12 @@ def step (cfg : Cfg) (s : State) : Label → Option State
   | .rtCancel =>
     if s.rt = .waiting then
       some { s with rt := .cStoppingRoots, creq := cancelRootsV cfg s, t0 := some s.now }
-    else none
+    else
+      -- a cancellation of `operator()` while `run_tasks` waits for the hung tasks (e.g. a stop flag first, the cancellation
+      -- later): `except CancelledError: stop(hung_tasks, cancelled=True); raise`
+      match s.rt with
+      | .hungWait _ => some { s with rt := .cStoppingHung }
+      | _ => none
   | .rtHungWait =>
     if s.rt = .stoppingRoots ∧ allRootsEnded s = true then
       some { s with rt := .hungWait (s.now + cfg.H) }
